@@ -14,7 +14,7 @@ ck = importlib.util.module_from_spec(_spec)
 _loader.exec_module(ck)
 
 SCENARIOS = {
-    "C17": ["blocking", "timeout", "in_runtime", "deadletters", "blocking", "timeout"],
+    "C17": ["blocking", "timeout", "contended", "in_runtime", "deadletters", "blocking", "timeout", "contended"],
     "C11": ["ids"],
     "C13": ["deadletters", "blocking"],
 }
